@@ -102,9 +102,11 @@ def try_decoding(data, encoding):
     '''Return whether the Python codec could decode the data.'''
     try:
         data.decode(encoding, 'strict')
-    except (UnicodeError, LookupError):
-        # LookupError: a codec name such as "hex" or "zlib" that is not a
-        # text encoding (it may come from a server's charset parameter).
+    except LookupError:
+        # A codec name such as "hex" or "zlib" that is not a text encoding
+        # (it may come from a server's charset parameter).
+        return False
+    except UnicodeError:
         # Data under 16 bytes is very unlikely to be truncated
         if len(data) > 16:
             for trim in (1, 2, 3):
